@@ -3,7 +3,7 @@
 //! thread's two-word publication (yield points clk.read.mid, clk.pub.mid, clk.reset.mid).
 //!
 //! Scenario: {"b": internal buffer size, "speed0": units per frame, "src": .., "steps": [
-//!   {"act":"Cmd","c":"start|pause|speed|speed_at","v":V,"w":W} | {"act":"StopA"} | {"act":"StopB"}
+//!   {"act":"Cmd","c":"start|pause|speed|speed_in|speed_at","v":V,"w":W} | {"act":"StopA"} | {"act":"StopB"}
 //!   | {"act":"Sched","id":I,"w":W} | {"act":"RdA"} | {"act":"RdB"}
 //!   | {"act":"ABegin","n":N} | {"act":"APubTicks"} | {"act":"ARun"}]}
 //! Clock time unit = 1/4 tick; a speed of v units per frame = 2v ticks per second at 8 Hz.
@@ -70,6 +70,11 @@ fn run_scenario(sc: &Value, t: &mut Tracer) {
 						"speed" => wd.clock.set_speed(
 							ClockSpeed::TicksPerSecond(2.0 * v as f64),
 							Tween { start_time: StartTime::Immediate, duration: Duration::ZERO, easing: kira::Easing::Linear },
+						),
+						// (w = delay in frames of audio time)
+						"speed_in" => wd.clock.set_speed(
+							ClockSpeed::TicksPerSecond(2.0 * v as f64),
+							Tween { start_time: StartTime::Delayed(Duration::from_millis(125 * w)), duration: Duration::ZERO, easing: kira::Easing::Linear },
 						),
 						"speed_at" => {
 							let at = ctime(&wd.clock, w);
